@@ -261,7 +261,7 @@ impl Property for C07 {
     fn cases(&self, tier: Tier) -> u32 {
         match tier {
             Tier::Quick => 30_000,
-            Tier::Thorough => 80_000,
+            Tier::Thorough => 600_000,
         }
     }
 
